@@ -294,36 +294,39 @@ theorem reset_fresh {s : St} {g : Nat} (h1 : (s.gens g).ssFins = []) (h5 : (s.ge
   split <;> simp_all
 
 theorem flive_pTerm (cfg : Cfg) {g i : Nat} {u : St} (t : Ev) (ht : t.isTerminal = true) (h : FLive g i u) :
-    pTerm cfg g t u = { (syncTermState t i g u) with subject := none, sourceSubscription := none, gens := fun k => if k = g then { ((syncTermState t i g u).gens g) with ssDone := true } else (syncTermState t i g u).gens k } ∨
-    pTerm cfg g t u = { (syncTermState t i g u) with flagE := true } ∨
-    pTerm cfg g t u = { (syncTermState t i g u) with flagC := true } := by
+    (cfg.flags.resetsOn t = true ∧ pTerm cfg g t u = { (syncTermState t i g u) with subject := none, sourceSubscription := none, gens := fun k => if k = g then { ((syncTermState t i g u).gens g) with ssDone := true } else (syncTermState t i g u).gens k }) ∨
+    (cfg.flags.resetsOn t = false ∧ pTerm cfg g t u = { (syncTermState t i g u) with flagE := true }) ∨
+    (cfg.flags.resetsOn t = false ∧ pTerm cfg g t u = { (syncTermState t i g u) with flagC := true }) := by
   have hc : t.code ≠ 0 := by cases t <;> simp [Ev.code, Ev.isTerminal] at *
   have hpf := h.pFin
   have hsf := h.ssFins
   have hss : u.sourceSubscription = some g := by rw [h.shared]; exact h.subject
   have hr := reset_fresh (s := u.modGen g fun x => { x with pStatus := t.code }) (g := g) (by simp [hsf]) (by simp [h.ssDone]) h.subject hss
-  have hd := pDecide_cases cfg.flags g t ht (u.modGen g fun x => { x with pStatus := t.code })
+  have hd := pDecide_cases' cfg.flags g t ht (u.modGen g fun x => { x with pStatus := t.code })
   rw [hr] at hd
   unfold pTerm
   rw [if_pos h.pStatus]
-  rcases hd with hd | hd | hd
+  rcases hd with ⟨hf, hd⟩ | ⟨hf, hd⟩ | ⟨hf, hd⟩
   · left
+    refine ⟨hf, ?_⟩
     rw [hd]
     simp [subjTerm, h.isOpen, bcastTerm, h.obs, dTerm, dDeliver, h.status, dSubnUnsub, h.done, h.delFin, h.tearFin, runDel, runTear,
       subjClear, pSubnUnsub, h.pDone, hpf, syncTermState]
     refine ⟨?_, ?_⟩ <;> funext k <;> split <;> simp_all
   · right; left
+    refine ⟨hf, ?_⟩
     rw [hd]
     simp [subjTerm, h.isOpen, bcastTerm, h.obs, dTerm, dDeliver, h.status, dSubnUnsub, h.done, h.delFin, h.tearFin, runDel, runTear,
       subjClear, pSubnUnsub, h.pDone, hpf, syncTermState]
     refine ⟨?_, ?_⟩ <;> funext k <;> split <;> simp_all
   · right; right
+    refine ⟨hf, ?_⟩
     rw [hd]
     simp [subjTerm, h.isOpen, bcastTerm, h.obs, dTerm, dDeliver, h.status, dSubnUnsub, h.done, h.delFin, h.tearFin, runDel, runTear,
       subjClear, pSubnUnsub, h.pDone, hpf, syncTermState]
     refine ⟨?_, ?_⟩ <;> funext k <;> split <;> simp_all
 theorem flive_pTerm_phase (cfg : Cfg) {g i : Nat} {u : St} (t : Ev) (ht : t.isTerminal = true) (h : FLive g i u) :
-    FReset g i (pTerm cfg g t u) ∨ FLatch g i (pTerm cfg g t u) := by
+    (cfg.flags.resetsOn t = true ∧ FReset g i (pTerm cfg g t u)) ∨ (cfg.flags.resetsOn t = false ∧ FLatch g i (pTerm cfg g t u)) := by
   have hc : t.code ≠ 0 := by cases t <;> simp [Ev.code, Ev.isTerminal] at *
   have hterm : Status.ofTerminal t ≠ Status.open := by cases t <;> simp [Status.ofTerminal, Ev.isTerminal] at *
   have hstale : ∀ k, k < g → GenStale ((syncTermState t i g u).gens k) := by
@@ -339,10 +342,10 @@ theorem flive_pTerm_phase (cfg : Cfg) {g i : Nat} {u : St} (t : Ev) (ht : t.isTe
   have hsub : SubClosed ((syncTermState t i g u).subs i) := by
     constructor <;> simp [syncTermState, hc]
   have hss : u.sourceSubscription = some g := by rw [h.shared]; exact h.subject
-  rcases flive_pTerm cfg t ht h with e | e | e
+  rcases flive_pTerm cfg t ht h with ⟨hf, e⟩ | ⟨hf, e⟩ | ⟨hf, e⟩
   · left
     rw [e]
-    refine ⟨⟨rfl, h.ngens, h.nsubs, ?_, hclosed, h.count, ?_, ?_, ?_, ?_, ?_⟩, rfl, h.flagE, h.flagC, ?_, ?_, ?_, ?_, hsub⟩
+    refine ⟨hf, ⟨rfl, h.ngens, h.nsubs, ?_, hclosed, h.count, ?_, ?_, ?_, ?_, ?_⟩, rfl, h.flagE, h.flagC, ?_, ?_, ?_, ?_, hsub⟩
     · intro k hk
       have : k ≠ g := by omega
       simp [this]
@@ -350,11 +353,11 @@ theorem flive_pTerm_phase (cfg : Cfg) {g i : Nat} {u : St} (t : Ev) (ht : t.isTe
     all_goals simp [syncTermState, h.upSub, h.upTorn, h.pFin, h.ssFins, hc]
   · right
     rw [e]
-    refine ⟨⟨h.shared, h.ngens, h.nsubs, hstale, hclosed, h.count, ?_, ?_, ?_, ?_, ?_⟩, h.subject, Or.inl rfl, ?_, ?_, ?_, ?_, ?_, hsub⟩
+    refine ⟨hf, ⟨h.shared, h.ngens, h.nsubs, hstale, hclosed, h.count, ?_, ?_, ?_, ?_, ?_⟩, h.subject, Or.inl rfl, ?_, ?_, ?_, ?_, ?_, hsub⟩
     all_goals simp [syncTermState, h.upSub, h.upTorn, h.pFin, h.ssFins, hc, h.ssDone, hterm]
   · right
     rw [e]
-    refine ⟨⟨h.shared, h.ngens, h.nsubs, hstale, hclosed, h.count, ?_, ?_, ?_, ?_, ?_⟩, h.subject, Or.inr rfl, ?_, ?_, ?_, ?_, ?_, hsub⟩
+    refine ⟨hf, ⟨h.shared, h.ngens, h.nsubs, hstale, hclosed, h.count, ?_, ?_, ?_, ?_, ?_⟩, h.subject, Or.inr rfl, ?_, ?_, ?_, ?_, ?_, hsub⟩
     all_goals simp [syncTermState, h.upSub, h.upTorn, h.pFin, h.ssFins, hc, h.ssDone, hterm]
 
 theorem playPre_reset (cfg : Cfg) {g i : Nat} (pre : List Ev) {u : St} (h : FReset g i u) : FReset g i (playPre cfg g pre u) := by
@@ -369,22 +372,34 @@ theorem playPre_latch (cfg : Cfg) {g i : Nat} (pre : List Ev) {u : St} (h : FLat
   | nil => exact h
   | cons x xs ih => exact ih (h.sim (pEmit_closed_sim cfg g x h.pStatus h.pDone))
 
+theorem safePre_next (fl : Flags) (v : Int) (xs : List Ev) : SafePre fl (.next v :: xs) = SafePre fl xs := by
+  simp [SafePre, firstTerminal, Ev.isTerminal]
+
+theorem safePre_term (fl : Flags) (t : Ev) (ht : t.isTerminal = true) (xs : List Ev) : SafePre fl (t :: xs) = !fl.resetsOn t := by
+  simp [SafePre, firstTerminal, ht]
+
+/-- after the prefix: still live, or reset (only when the prefix is not `SafePre`), or latched -/
 theorem playPre_live (cfg : Cfg) {g i : Nat} (pre : List Ev) {u : St} (h : FLive g i u) :
-    FLive g i (playPre cfg g pre u) ∨ FReset g i (playPre cfg g pre u) ∨ FLatch g i (playPre cfg g pre u) := by
+    FLive g i (playPre cfg g pre u) ∨ (SafePre cfg.flags pre = false ∧ FReset g i (playPre cfg g pre u)) ∨
+      FLatch g i (playPre cfg g pre u) := by
   induction pre generalizing u with
   | nil => exact Or.inl h
   | cons x xs ih =>
     have hstep : playPre cfg g (x :: xs) u = playPre cfg g xs (pEmit cfg g x u) := rfl
     rw [hstep]
     cases x with
-    | next v => exact ih (h.sim (pNext_sim cfg g v u))
+    | next v =>
+      rw [safePre_next]
+      exact ih (h.sim (pNext_sim cfg g v u))
     | error e =>
-      rcases flive_pTerm_phase cfg (.error e) rfl h with hr | hl
-      · exact Or.inr (Or.inl (playPre_reset cfg xs hr))
+      rw [safePre_term _ _ rfl]
+      rcases flive_pTerm_phase cfg (.error e) rfl h with ⟨hf, hr⟩ | ⟨_, hl⟩
+      · exact Or.inr (Or.inl ⟨by simp [hf], playPre_reset cfg xs hr⟩)
       · exact Or.inr (Or.inr (playPre_latch cfg xs hl))
     | complete =>
-      rcases flive_pTerm_phase cfg .complete rfl h with hr | hl
-      · exact Or.inr (Or.inl (playPre_reset cfg xs hr))
+      rw [safePre_term _ _ rfl]
+      rcases flive_pTerm_phase cfg .complete rfl h with ⟨hf, hr⟩ | ⟨_, hl⟩
+      · exact Or.inr (Or.inl ⟨by simp [hf], playPre_reset cfg xs hr⟩)
       · exact Or.inr (Or.inr (playPre_latch cfg xs hl))
 
 theorem openSubs_single {s : St} {i : Nat} (hn : s.nsubs = i + 1) (hcl : ∀ k, k < i → (s.subs k).status ≠ 0)
@@ -646,7 +661,7 @@ theorem subscribe_cases (cfg : Cfg) {s : St} (hi : Inv s) :
     obtain ⟨u0, k, hsim, he⟩ := subscribe_fresh_eq cfg hi hsub
     rw [he]
     have hl := (flive_freshState cfg.conn hi hsub).sim hsim
-    rcases playPre_live cfg (cfg.pre k) hl with h | h | h
+    rcases playPre_live cfg (cfg.pre k) hl with h | ⟨_, h⟩ | h
     · exact (finish_live cfg.flags h).2.1
     · exact (finish_reset cfg.flags h).2.1
     · exact (finish_latch cfg.flags h).2.1
